@@ -1,9 +1,33 @@
+Api/Dispatch.vo Api/Dispatch.glob Api/Dispatch.v.beautified Api/Dispatch.required_vo: Api/Dispatch.v Api/Match.vo
+Api/Dispatch.vio: Api/Dispatch.v Api/Match.vio
+Api/Dispatch.vos Api/Dispatch.vok Api/Dispatch.required_vos: Api/Dispatch.v Api/Match.vos
+Api/DispatchProofs.vo Api/DispatchProofs.glob Api/DispatchProofs.v.beautified Api/DispatchProofs.required_vo: Api/DispatchProofs.v Api/Match.vo Api/MatchProofs.vo Api/Dispatch.vo
+Api/DispatchProofs.vio: Api/DispatchProofs.v Api/Match.vio Api/MatchProofs.vio Api/Dispatch.vio
+Api/DispatchProofs.vos Api/DispatchProofs.vok Api/DispatchProofs.required_vos: Api/DispatchProofs.v Api/Match.vos Api/MatchProofs.vos Api/Dispatch.vos
+Api/Match.vo Api/Match.glob Api/Match.v.beautified Api/Match.required_vo: Api/Match.v 
+Api/Match.vio: Api/Match.v 
+Api/Match.vos Api/Match.vok Api/Match.required_vos: Api/Match.v 
+Api/MatchProofs.vo Api/MatchProofs.glob Api/MatchProofs.v.beautified Api/MatchProofs.required_vo: Api/MatchProofs.v Api/Match.vo
+Api/MatchProofs.vio: Api/MatchProofs.v Api/Match.vio
+Api/MatchProofs.vos Api/MatchProofs.vok Api/MatchProofs.required_vos: Api/MatchProofs.v Api/Match.vos
 Base/Bits.vo Base/Bits.glob Base/Bits.v.beautified Base/Bits.required_vo: Base/Bits.v 
 Base/Bits.vio: Base/Bits.v 
 Base/Bits.vos Base/Bits.vok Base/Bits.required_vos: Base/Bits.v 
 Base/Bytes.vo Base/Bytes.glob Base/Bytes.v.beautified Base/Bytes.required_vo: Base/Bytes.v 
 Base/Bytes.vio: Base/Bytes.v 
 Base/Bytes.vos Base/Bytes.vok Base/Bytes.required_vos: Base/Bytes.v 
+Cmd/Command.vo Cmd/Command.glob Cmd/Command.v.beautified Cmd/Command.required_vo: Cmd/Command.v Base/Bytes.vo Wire/Wty.vo Cmd/Schema.vo
+Cmd/Command.vio: Cmd/Command.v Base/Bytes.vio Wire/Wty.vio Cmd/Schema.vio
+Cmd/Command.vos Cmd/Command.vok Cmd/Command.required_vos: Cmd/Command.v Base/Bytes.vos Wire/Wty.vos Cmd/Schema.vos
+Cmd/CommandProofs.vo Cmd/CommandProofs.glob Cmd/CommandProofs.v.beautified Cmd/CommandProofs.required_vo: Cmd/CommandProofs.v Base/Bytes.vo Wire/Wty.vo Wire/WtyProofs.vo Cmd/Schema.vo Cmd/Command.vo gen/GenSchemas.vo
+Cmd/CommandProofs.vio: Cmd/CommandProofs.v Base/Bytes.vio Wire/Wty.vio Wire/WtyProofs.vio Cmd/Schema.vio Cmd/Command.vio gen/GenSchemas.vio
+Cmd/CommandProofs.vos Cmd/CommandProofs.vok Cmd/CommandProofs.required_vos: Cmd/CommandProofs.v Base/Bytes.vos Wire/Wty.vos Wire/WtyProofs.vos Cmd/Schema.vos Cmd/Command.vos gen/GenSchemas.vos
+Cmd/Pinned.vo Cmd/Pinned.glob Cmd/Pinned.v.beautified Cmd/Pinned.required_vo: Cmd/Pinned.v Wire/Wty.vo Cmd/Schema.vo Cmd/Command.vo gen/GenSchemas.vo gen/GenEnums.vo pinned/PinnedSchemas.vo pinned/PinnedEnums.vo
+Cmd/Pinned.vio: Cmd/Pinned.v Wire/Wty.vio Cmd/Schema.vio Cmd/Command.vio gen/GenSchemas.vio gen/GenEnums.vio pinned/PinnedSchemas.vio pinned/PinnedEnums.vio
+Cmd/Pinned.vos Cmd/Pinned.vok Cmd/Pinned.required_vos: Cmd/Pinned.v Wire/Wty.vos Cmd/Schema.vos Cmd/Command.vos gen/GenSchemas.vos gen/GenEnums.vos pinned/PinnedSchemas.vos pinned/PinnedEnums.vos
+Cmd/Schema.vo Cmd/Schema.glob Cmd/Schema.v.beautified Cmd/Schema.required_vo: Cmd/Schema.v Wire/Wty.vo
+Cmd/Schema.vio: Cmd/Schema.v Wire/Wty.vio
+Cmd/Schema.vos Cmd/Schema.vok Cmd/Schema.required_vos: Cmd/Schema.v Wire/Wty.vos
 Crc/CrcModel.vo Crc/CrcModel.glob Crc/CrcModel.v.beautified Crc/CrcModel.required_vo: Crc/CrcModel.v Base/Bytes.vo gen/GenCrcTables.vo
 Crc/CrcModel.vio: Crc/CrcModel.v Base/Bytes.vio gen/GenCrcTables.vio
 Crc/CrcModel.vos Crc/CrcModel.vok Crc/CrcModel.required_vos: Crc/CrcModel.v Base/Bytes.vos gen/GenCrcTables.vos
@@ -13,9 +37,18 @@ Crc/CrcProofs.vos Crc/CrcProofs.vok Crc/CrcProofs.required_vos: Crc/CrcProofs.v 
 Crc/CrcSpec.vo Crc/CrcSpec.glob Crc/CrcSpec.v.beautified Crc/CrcSpec.required_vo: Crc/CrcSpec.v Base/Bytes.vo
 Crc/CrcSpec.vio: Crc/CrcSpec.v Base/Bytes.vio
 Crc/CrcSpec.vos Crc/CrcSpec.vok Crc/CrcSpec.required_vos: Crc/CrcSpec.v Base/Bytes.vos
-Extract.vo Extract.glob Extract.v.beautified Extract.required_vo: Extract.v Base/Bytes.vo Crc/CrcSpec.vo Crc/CrcModel.vo Link/LLHeader.vo Link/LinkSpec.vo Link/Frame.vo Link/Frag.vo Link/Resync.vo Link/Rx.vo Link/RxSpec.vo Link/TxSeq.vo
-Extract.vio: Extract.v Base/Bytes.vio Crc/CrcSpec.vio Crc/CrcModel.vio Link/LLHeader.vio Link/LinkSpec.vio Link/Frame.vio Link/Frag.vio Link/Resync.vio Link/Rx.vio Link/RxSpec.vio Link/TxSeq.vio
-Extract.vos Extract.vok Extract.required_vos: Extract.v Base/Bytes.vos Crc/CrcSpec.vos Crc/CrcModel.vos Link/LLHeader.vos Link/LinkSpec.vos Link/Frame.vos Link/Frag.vos Link/Resync.vos Link/Rx.vos Link/RxSpec.vos Link/TxSeq.vos
+Extract.vo Extract.glob Extract.v.beautified Extract.required_vo: Extract.v Base/Bytes.vo Crc/CrcSpec.vo Crc/CrcModel.vo Link/LLHeader.vo Link/LinkSpec.vo Link/Frame.vo Link/Frag.vo Link/Resync.vo Link/Rx.vo Link/RxSpec.vo Link/TxSeq.vo Wire/Wty.vo Cmd/Schema.vo Cmd/Command.vo gen/GenSchemas.vo
+Extract.vio: Extract.v Base/Bytes.vio Crc/CrcSpec.vio Crc/CrcModel.vio Link/LLHeader.vio Link/LinkSpec.vio Link/Frame.vio Link/Frag.vio Link/Resync.vio Link/Rx.vio Link/RxSpec.vio Link/TxSeq.vio Wire/Wty.vio Cmd/Schema.vio Cmd/Command.vio gen/GenSchemas.vio
+Extract.vos Extract.vok Extract.required_vos: Extract.v Base/Bytes.vos Crc/CrcSpec.vos Crc/CrcModel.vos Link/LLHeader.vos Link/LinkSpec.vos Link/Frame.vos Link/Frag.vos Link/Resync.vos Link/Rx.vos Link/RxSpec.vos Link/TxSeq.vos Wire/Wty.vos Cmd/Schema.vos Cmd/Command.vos gen/GenSchemas.vos
+ExtractCstruct.vo ExtractCstruct.glob ExtractCstruct.v.beautified ExtractCstruct.required_vo: ExtractCstruct.v Base/Bytes.vo Wire/CStruct.vo Wire/Nvram.vo
+ExtractCstruct.vio: ExtractCstruct.v Base/Bytes.vio Wire/CStruct.vio Wire/Nvram.vio
+ExtractCstruct.vos ExtractCstruct.vok ExtractCstruct.required_vos: ExtractCstruct.v Base/Bytes.vos Wire/CStruct.vos Wire/Nvram.vos
+ExtractMatch.vo ExtractMatch.glob ExtractMatch.v.beautified ExtractMatch.required_vo: ExtractMatch.v Api/Match.vo Api/Dispatch.vo Api/DispatchProofs.vo
+ExtractMatch.vio: ExtractMatch.v Api/Match.vio Api/Dispatch.vio Api/DispatchProofs.vio
+ExtractMatch.vos ExtractMatch.vok ExtractMatch.required_vos: ExtractMatch.v Api/Match.vos Api/Dispatch.vos Api/DispatchProofs.vos
+ExtractRadio.vo ExtractRadio.glob ExtractRadio.v.beautified ExtractRadio.required_vo: ExtractRadio.v Base/Bytes.vo Radio/Radio.vo
+ExtractRadio.vio: ExtractRadio.v Base/Bytes.vio Radio/Radio.vio
+ExtractRadio.vos ExtractRadio.vok ExtractRadio.required_vos: ExtractRadio.v Base/Bytes.vos Radio/Radio.vos
 Link/Frag.vo Link/Frag.glob Link/Frag.v.beautified Link/Frag.required_vo: Link/Frag.v Base/Bytes.vo Base/Bits.vo Crc/CrcModel.vo Link/LLHeader.vo Link/Frame.vo gen/GenConsts.vo
 Link/Frag.vio: Link/Frag.v Base/Bytes.vio Base/Bits.vio Crc/CrcModel.vio Link/LLHeader.vio Link/Frame.vio gen/GenConsts.vio
 Link/Frag.vos Link/Frag.vok Link/Frag.required_vos: Link/Frag.v Base/Bytes.vos Base/Bits.vos Crc/CrcModel.vos Link/LLHeader.vos Link/Frame.vos gen/GenConsts.vos
@@ -58,6 +91,30 @@ Link/TxSeq.vos Link/TxSeq.vok Link/TxSeq.required_vos: Link/TxSeq.v Base/Bytes.v
 Link/TxSeqProofs.vo Link/TxSeqProofs.glob Link/TxSeqProofs.v.beautified Link/TxSeqProofs.required_vo: Link/TxSeqProofs.v Base/Bytes.vo Link/LinkSpec.vo Link/LinkSpecProofs.vo Link/Frame.vo Link/Rx.vo Link/TxSeq.vo Link/FrameProofs.vo gen/GenConsts.vo
 Link/TxSeqProofs.vio: Link/TxSeqProofs.v Base/Bytes.vio Link/LinkSpec.vio Link/LinkSpecProofs.vio Link/Frame.vio Link/Rx.vio Link/TxSeq.vio Link/FrameProofs.vio gen/GenConsts.vio
 Link/TxSeqProofs.vos Link/TxSeqProofs.vok Link/TxSeqProofs.required_vos: Link/TxSeqProofs.v Base/Bytes.vos Link/LinkSpec.vos Link/LinkSpecProofs.vos Link/Frame.vos Link/Rx.vos Link/TxSeq.vos Link/FrameProofs.vos gen/GenConsts.vos
+Radio/Radio.vo Radio/Radio.glob Radio/Radio.v.beautified Radio/Radio.required_vo: Radio/Radio.v Base/Bytes.vo
+Radio/Radio.vio: Radio/Radio.v Base/Bytes.vio
+Radio/Radio.vos Radio/Radio.vok Radio/Radio.required_vos: Radio/Radio.v Base/Bytes.vos
+Radio/RadioProofs.vo Radio/RadioProofs.glob Radio/RadioProofs.v.beautified Radio/RadioProofs.required_vo: Radio/RadioProofs.v Base/Bytes.vo Radio/Radio.vo
+Radio/RadioProofs.vio: Radio/RadioProofs.v Base/Bytes.vio Radio/Radio.vio
+Radio/RadioProofs.vos Radio/RadioProofs.vok Radio/RadioProofs.required_vos: Radio/RadioProofs.v Base/Bytes.vos Radio/Radio.vos
+Wire/CStruct.vo Wire/CStruct.glob Wire/CStruct.v.beautified Wire/CStruct.required_vo: Wire/CStruct.v Base/Bytes.vo
+Wire/CStruct.vio: Wire/CStruct.v Base/Bytes.vio
+Wire/CStruct.vos Wire/CStruct.vok Wire/CStruct.required_vos: Wire/CStruct.v Base/Bytes.vos
+Wire/CStructProofs.vo Wire/CStructProofs.glob Wire/CStructProofs.v.beautified Wire/CStructProofs.required_vo: Wire/CStructProofs.v Base/Bytes.vo Wire/CStruct.vo
+Wire/CStructProofs.vio: Wire/CStructProofs.v Base/Bytes.vio Wire/CStruct.vio
+Wire/CStructProofs.vos Wire/CStructProofs.vok Wire/CStructProofs.required_vos: Wire/CStructProofs.v Base/Bytes.vos Wire/CStruct.vos
+Wire/Nvram.vo Wire/Nvram.glob Wire/Nvram.v.beautified Wire/Nvram.required_vo: Wire/Nvram.v Base/Bytes.vo Wire/CStruct.vo
+Wire/Nvram.vio: Wire/Nvram.v Base/Bytes.vio Wire/CStruct.vio
+Wire/Nvram.vos Wire/Nvram.vok Wire/Nvram.required_vos: Wire/Nvram.v Base/Bytes.vos Wire/CStruct.vos
+Wire/NvramProofs.vo Wire/NvramProofs.glob Wire/NvramProofs.v.beautified Wire/NvramProofs.required_vo: Wire/NvramProofs.v Base/Bytes.vo Wire/CStruct.vo Wire/CStructProofs.vo Wire/Nvram.vo
+Wire/NvramProofs.vio: Wire/NvramProofs.v Base/Bytes.vio Wire/CStruct.vio Wire/CStructProofs.vio Wire/Nvram.vio
+Wire/NvramProofs.vos Wire/NvramProofs.vok Wire/NvramProofs.required_vos: Wire/NvramProofs.v Base/Bytes.vos Wire/CStruct.vos Wire/CStructProofs.vos Wire/Nvram.vos
+Wire/Wty.vo Wire/Wty.glob Wire/Wty.v.beautified Wire/Wty.required_vo: Wire/Wty.v Base/Bytes.vo
+Wire/Wty.vio: Wire/Wty.v Base/Bytes.vio
+Wire/Wty.vos Wire/Wty.vok Wire/Wty.required_vos: Wire/Wty.v Base/Bytes.vos
+Wire/WtyProofs.vo Wire/WtyProofs.glob Wire/WtyProofs.v.beautified Wire/WtyProofs.required_vo: Wire/WtyProofs.v Base/Bytes.vo Wire/Wty.vo
+Wire/WtyProofs.vio: Wire/WtyProofs.v Base/Bytes.vio Wire/Wty.vio
+Wire/WtyProofs.vos Wire/WtyProofs.vok Wire/WtyProofs.required_vos: Wire/WtyProofs.v Base/Bytes.vos Wire/Wty.vos
 gen/GenBitfields.vo gen/GenBitfields.glob gen/GenBitfields.v.beautified gen/GenBitfields.required_vo: gen/GenBitfields.v 
 gen/GenBitfields.vio: gen/GenBitfields.v 
 gen/GenBitfields.vos gen/GenBitfields.vok gen/GenBitfields.required_vos: gen/GenBitfields.v 
@@ -67,6 +124,18 @@ gen/GenConsts.vos gen/GenConsts.vok gen/GenConsts.required_vos: gen/GenConsts.v
 gen/GenCrcTables.vo gen/GenCrcTables.glob gen/GenCrcTables.v.beautified gen/GenCrcTables.required_vo: gen/GenCrcTables.v 
 gen/GenCrcTables.vio: gen/GenCrcTables.v 
 gen/GenCrcTables.vos gen/GenCrcTables.vok gen/GenCrcTables.required_vos: gen/GenCrcTables.v 
+gen/GenEnums.vo gen/GenEnums.glob gen/GenEnums.v.beautified gen/GenEnums.required_vo: gen/GenEnums.v 
+gen/GenEnums.vio: gen/GenEnums.v 
+gen/GenEnums.vos gen/GenEnums.vok gen/GenEnums.required_vos: gen/GenEnums.v 
+gen/GenSchemas.vo gen/GenSchemas.glob gen/GenSchemas.v.beautified gen/GenSchemas.required_vo: gen/GenSchemas.v Wire/Wty.vo Cmd/Schema.vo
+gen/GenSchemas.vio: gen/GenSchemas.v Wire/Wty.vio Cmd/Schema.vio
+gen/GenSchemas.vos gen/GenSchemas.vok gen/GenSchemas.required_vos: gen/GenSchemas.v Wire/Wty.vos Cmd/Schema.vos
+pinned/PinnedEnums.vo pinned/PinnedEnums.glob pinned/PinnedEnums.v.beautified pinned/PinnedEnums.required_vo: pinned/PinnedEnums.v 
+pinned/PinnedEnums.vio: pinned/PinnedEnums.v 
+pinned/PinnedEnums.vos pinned/PinnedEnums.vok pinned/PinnedEnums.required_vos: pinned/PinnedEnums.v 
+pinned/PinnedSchemas.vo pinned/PinnedSchemas.glob pinned/PinnedSchemas.v.beautified pinned/PinnedSchemas.required_vo: pinned/PinnedSchemas.v Wire/Wty.vo Cmd/Schema.vo
+pinned/PinnedSchemas.vio: pinned/PinnedSchemas.v Wire/Wty.vio Cmd/Schema.vio
+pinned/PinnedSchemas.vos pinned/PinnedSchemas.vok pinned/PinnedSchemas.required_vos: pinned/PinnedSchemas.v Wire/Wty.vos Cmd/Schema.vos
 props/Props_C01.vo props/Props_C01.glob props/Props_C01.v.beautified props/Props_C01.required_vo: props/Props_C01.v Base/Bytes.vo Link/LinkSpec.vo Link/LinkSpecProofs.vo Link/Rx.vo Link/RxSpec.vo Link/RxProofs.vo
 props/Props_C01.vio: props/Props_C01.v Base/Bytes.vio Link/LinkSpec.vio Link/LinkSpecProofs.vio Link/Rx.vio Link/RxSpec.vio Link/RxProofs.vio
 props/Props_C01.vos props/Props_C01.vok props/Props_C01.required_vos: props/Props_C01.v Base/Bytes.vos Link/LinkSpec.vos Link/LinkSpecProofs.vos Link/Rx.vos Link/RxSpec.vos Link/RxProofs.vos
@@ -76,6 +145,9 @@ props/Props_C02.vos props/Props_C02.vok props/Props_C02.required_vos: props/Prop
 props/Props_C03.vo props/Props_C03.glob props/Props_C03.v.beautified props/Props_C03.required_vo: props/Props_C03.v Base/Bytes.vo Crc/CrcSpec.vo Crc/CrcModel.vo Crc/CrcProofs.vo
 props/Props_C03.vio: props/Props_C03.v Base/Bytes.vio Crc/CrcSpec.vio Crc/CrcModel.vio Crc/CrcProofs.vio
 props/Props_C03.vos props/Props_C03.vok props/Props_C03.required_vos: props/Props_C03.v Base/Bytes.vos Crc/CrcSpec.vos Crc/CrcModel.vos Crc/CrcProofs.vos
+props/Props_C04.vo props/Props_C04.glob props/Props_C04.v.beautified props/Props_C04.required_vo: props/Props_C04.v Base/Bytes.vo Wire/Wty.vo Wire/WtyProofs.vo Cmd/Schema.vo Cmd/Command.vo Cmd/CommandProofs.vo gen/GenSchemas.vo
+props/Props_C04.vio: props/Props_C04.v Base/Bytes.vio Wire/Wty.vio Wire/WtyProofs.vio Cmd/Schema.vio Cmd/Command.vio Cmd/CommandProofs.vio gen/GenSchemas.vio
+props/Props_C04.vos props/Props_C04.vok props/Props_C04.required_vos: props/Props_C04.v Base/Bytes.vos Wire/Wty.vos Wire/WtyProofs.vos Cmd/Schema.vos Cmd/Command.vos Cmd/CommandProofs.vos gen/GenSchemas.vos
 props/Props_C05.vo props/Props_C05.glob props/Props_C05.v.beautified props/Props_C05.required_vo: props/Props_C05.v Base/Bytes.vo Base/Bits.vo Link/LLHeader.vo Link/LLHeaderGen.vo Link/LinkSpec.vo Link/LinkSpecProofs.vo Link/Frame.vo Link/Rx.vo Link/FrameProofs.vo gen/GenBitfields.vo
 props/Props_C05.vio: props/Props_C05.v Base/Bytes.vio Base/Bits.vio Link/LLHeader.vio Link/LLHeaderGen.vio Link/LinkSpec.vio Link/LinkSpecProofs.vio Link/Frame.vio Link/Rx.vio Link/FrameProofs.vio gen/GenBitfields.vio
 props/Props_C05.vos props/Props_C05.vok props/Props_C05.required_vos: props/Props_C05.v Base/Bytes.vos Base/Bits.vos Link/LLHeader.vos Link/LLHeaderGen.vos Link/LinkSpec.vos Link/LinkSpecProofs.vos Link/Frame.vos Link/Rx.vos Link/FrameProofs.vos gen/GenBitfields.vos
@@ -88,3 +160,24 @@ props/Props_C08.vos props/Props_C08.vok props/Props_C08.required_vos: props/Prop
 props/Props_C09.vo props/Props_C09.glob props/Props_C09.v.beautified props/Props_C09.required_vo: props/Props_C09.v Base/Bytes.vo Link/LinkSpec.vo Link/LinkSpecProofs.vo Link/Frame.vo Link/Frag.vo Link/FrameProofs.vo Link/FragProofs.vo gen/GenConsts.vo
 props/Props_C09.vio: props/Props_C09.v Base/Bytes.vio Link/LinkSpec.vio Link/LinkSpecProofs.vio Link/Frame.vio Link/Frag.vio Link/FrameProofs.vio Link/FragProofs.vio gen/GenConsts.vio
 props/Props_C09.vos props/Props_C09.vok props/Props_C09.required_vos: props/Props_C09.v Base/Bytes.vos Link/LinkSpec.vos Link/LinkSpecProofs.vos Link/Frame.vos Link/Frag.vos Link/FrameProofs.vos Link/FragProofs.vos gen/GenConsts.vos
+props/Props_C12.vo props/Props_C12.glob props/Props_C12.v.beautified props/Props_C12.required_vo: props/Props_C12.v Api/Match.vo Api/MatchProofs.vo Api/Dispatch.vo Api/DispatchProofs.vo
+props/Props_C12.vio: props/Props_C12.v Api/Match.vio Api/MatchProofs.vio Api/Dispatch.vio Api/DispatchProofs.vio
+props/Props_C12.vos props/Props_C12.vok props/Props_C12.required_vos: props/Props_C12.v Api/Match.vos Api/MatchProofs.vos Api/Dispatch.vos Api/DispatchProofs.vos
+props/Props_C15.vo props/Props_C15.glob props/Props_C15.v.beautified props/Props_C15.required_vo: props/Props_C15.v Base/Bytes.vo Wire/Wty.vo Wire/WtyProofs.vo Cmd/Schema.vo Cmd/Command.vo Cmd/CommandProofs.vo gen/GenSchemas.vo
+props/Props_C15.vio: props/Props_C15.v Base/Bytes.vio Wire/Wty.vio Wire/WtyProofs.vio Cmd/Schema.vio Cmd/Command.vio Cmd/CommandProofs.vio gen/GenSchemas.vio
+props/Props_C15.vos props/Props_C15.vok props/Props_C15.required_vos: props/Props_C15.v Base/Bytes.vos Wire/Wty.vos Wire/WtyProofs.vos Cmd/Schema.vos Cmd/Command.vos Cmd/CommandProofs.vos gen/GenSchemas.vos
+props/Props_C16.vo props/Props_C16.glob props/Props_C16.v.beautified props/Props_C16.required_vo: props/Props_C16.v Base/Bytes.vo Wire/Wty.vo Wire/WtyProofs.vo
+props/Props_C16.vio: props/Props_C16.v Base/Bytes.vio Wire/Wty.vio Wire/WtyProofs.vio
+props/Props_C16.vos props/Props_C16.vok props/Props_C16.required_vos: props/Props_C16.v Base/Bytes.vos Wire/Wty.vos Wire/WtyProofs.vos
+props/Props_C16cstruct.vo props/Props_C16cstruct.glob props/Props_C16cstruct.v.beautified props/Props_C16cstruct.required_vo: props/Props_C16cstruct.v Base/Bytes.vo Wire/CStruct.vo Wire/CStructProofs.vo Wire/Nvram.vo Wire/NvramProofs.vo
+props/Props_C16cstruct.vio: props/Props_C16cstruct.v Base/Bytes.vio Wire/CStruct.vio Wire/CStructProofs.vio Wire/Nvram.vio Wire/NvramProofs.vio
+props/Props_C16cstruct.vos props/Props_C16cstruct.vok props/Props_C16cstruct.required_vos: props/Props_C16cstruct.v Base/Bytes.vos Wire/CStruct.vos Wire/CStructProofs.vos Wire/Nvram.vos Wire/NvramProofs.vos
+props/Props_C17.vo props/Props_C17.glob props/Props_C17.v.beautified props/Props_C17.required_vo: props/Props_C17.v Api/Match.vo Api/MatchProofs.vo
+props/Props_C17.vio: props/Props_C17.v Api/Match.vio Api/MatchProofs.vio
+props/Props_C17.vos props/Props_C17.vok props/Props_C17.required_vos: props/Props_C17.v Api/Match.vos Api/MatchProofs.vos
+props/Props_C18.vo props/Props_C18.glob props/Props_C18.v.beautified props/Props_C18.required_vo: props/Props_C18.v Base/Bytes.vo Radio/Radio.vo Radio/RadioProofs.vo
+props/Props_C18.vio: props/Props_C18.v Base/Bytes.vio Radio/Radio.vio Radio/RadioProofs.vio
+props/Props_C18.vos props/Props_C18.vok props/Props_C18.required_vos: props/Props_C18.v Base/Bytes.vos Radio/Radio.vos Radio/RadioProofs.vos
+props/Props_C19.vo props/Props_C19.glob props/Props_C19.v.beautified props/Props_C19.required_vo: props/Props_C19.v Wire/Wty.vo Cmd/Schema.vo Cmd/Command.vo Cmd/Pinned.vo gen/GenSchemas.vo gen/GenEnums.vo pinned/PinnedSchemas.vo pinned/PinnedEnums.vo
+props/Props_C19.vio: props/Props_C19.v Wire/Wty.vio Cmd/Schema.vio Cmd/Command.vio Cmd/Pinned.vio gen/GenSchemas.vio gen/GenEnums.vio pinned/PinnedSchemas.vio pinned/PinnedEnums.vio
+props/Props_C19.vos props/Props_C19.vok props/Props_C19.required_vos: props/Props_C19.v Wire/Wty.vos Cmd/Schema.vos Cmd/Command.vos Cmd/Pinned.vos gen/GenSchemas.vos gen/GenEnums.vos pinned/PinnedSchemas.vos pinned/PinnedEnums.vos
